@@ -3,6 +3,11 @@
 import json
 
 CLAIMED = {
+    "C16": {
+        "text": "Proof over a model of chrono's observable calendar (proleptic Gregorian day arithmetic, RFC 3339 text): civil_roundtrip / days_roundtrip - every valid date maps to a day number that maps back and vice versa, for ALL years, from a kernel-evaluated table of one full 400-year era (146 097 days and 148 800 (year-of-era, month, day) triples, 32 chunks, `decide +kernel`, no native_decide) lifted by era arithmetic; accessors_recompose - the ten accessors are the fields of the local time at the timestamp's own offset and recompose to the instant exactly, with the documented 0-/1-based origins and Sunday = 0 (1970-01-01 is a Thursday); rfc3339_roundtrip - timestamp(string(t)) == t incl. the offset for years 0000-9999 (full statement: 0/3/6/9-digit fractions, sign, offset); equality and ordering compare instants regardless of offset; t + d - d == t and (t + d) - t == d whenever t + d is representable, otherwise an overflow error; no operator panics (the chrono panics were repaired: fix: commits D15, getDayOfYear). Tie to the code: first/last day of every month of boundary years x boundary times x offsets -12:00..+14:00 and random instants, as text and as host values, against the model and an independent calendar that counts days year by year.",
+        "technique": "Lean 4: kernel-evaluated era table (decide +kernel, chunked) + era-shift lifting, digit/padding lemmas for the RFC 3339 round trip + differential correspondence with an independent calendar",
+        "design_ref": "DESIGN.md section 5, C16",
+    },
     "C17": {
         "text": "Proof over a model of the serde data model with one constructor per Serializer method (ser.rs: Serializer, KeySerializer, the Duration/Timestamp wrappers): scalars map to the corresponding CEL kind (signed -> int, unsigned -> uint, ...), sequences/tuples/tuple structs to lists of the converted elements in order (elementwise, first failing element aborts), structs and maps to maps keyed by field name / converted key (every field present, last wins), data-carrying variants to single-entry maps keyed by the variant name, KeySerializer accepts exactly int/uint/bool/char/string/unit-variant keys transparently through Some and newtype structs and any other key is an error; to_value_commutes_with_json: for JSON-representable data, converting and exporting to JSON equals serde_json::to_value (modelled) - incl. duplicate keys, char keys, non-finite floats. Conversion results are Except values: no panic outcome exists except for types that abuse the private marker names (excluded as adversarial, DESIGN.md). Tie to the code: a recursive Any type whose Serialize impl calls exactly the method each constructor names, depth <= 5, every integer width at its extremes, unsupported key kinds, wrappers at chrono's limits, plus JSON documents; compared: to_value, its JSON export and serde_json::to_value.",
         "technique": "Lean 4 mutual structural induction over the serde data model with an accumulator-relating invariant + differential correspondence through a method-exact Serialize implementation",
